@@ -2,3 +2,4 @@ pub mod c19;
 pub mod c09;
 pub mod c12;
 pub mod c18;
+pub mod c16;
